@@ -235,7 +235,7 @@ def unit_bd_head(vectors="none", hermitian=True, solver="none", direct=True, h_s
     return r
 
 
-def unit_bd_tail(second_quantized, timeout_ms=20000):
+def unit_bd_tail(second_quantized, hermitian=True, timeout_ms=20000):
     """The TAIL of block_diagonalize: from the call of series_computation to the return.
       * series_computation is called once with exactly one input series, named "H", the algorithm chosen in the head, the scope dictionary and the multiplication;
       * the function returns (H_tilde, U, U†) in this order: the outputs themselves, or - for second-quantized input - one post-processing wrapper per output, each created from
@@ -275,16 +275,28 @@ def unit_bd_tail(second_quantized, timeout_ms=20000):
             return STup([dict(outs), {}])
 
         class MadeSeries(Model):
+            """a wrapper series built in the tail; reading it runs its callback (so a wrapper that reads ANOTHER wrapper shows up as a read of that wrapper's output)"""
             def __init__(s, kw):
                 s.kw = kw
+
+            def m_getattr(s, e, name):
+                if name in s.kw:
+                    return s.kw[name]
+                raise Unsupported(f"wrapper series .{name}")
+
+            def m_getitem(s, e, key):
+                return e.call(s.kw["eval"], list(e.as_seq(key).items), {})
 
         def ctor(e, **kw):
             m = MadeSeries(kw)
             made.append(m)
             return m
         eng.globals.update({"series_computation": Builtin("series_computation", sc), "BlockSeries": Builtin("BlockSeries", ctor), "zero": ZERO,
-                            "sympy": Namespace("sympy", {"MatrixBase": TypeObj("MatrixBase")}), "NumberOrderedForm": TypeObj("NumberOrderedForm"), "tuple": Builtin("tuple", lambda e, x: STup(list(e.as_seq(x).items)))})
-        env = Env(None, {"H": H, "algorithm": ALG, "scope": scope, "operator": OP, "operators": STup([T("a")] if second_quantized else []), "scalar_input": False})
+                            "sympy": Namespace("sympy", {"MatrixBase": TypeObj("MatrixBase"), "Expr": TypeObj("Expr"), "Basic": TypeObj("Basic")}), "NumberOrderedForm": TypeObj("NumberOrderedForm"), "tuple": Builtin("tuple", lambda e, x: STup(list(e.as_seq(x).items)))})
+        env = Env(None, {"H": H, "algorithm": ALG, "scope": scope, "operator": OP, "operators": STup([T("a")] if second_quantized else []), "scalar_input": False,
+                         # the other parameters / locals of block_diagonalize a tail may legitimately look at
+                         "hermitian": hermitian, "atol": T("atol"), "symbols": T("symbols"), "fully_diagonalize": T("fully_diagonalize"), "use_implicit": False})
+        eng.globals.setdefault("Dagger", Builtin("Dagger", lambda e, x: T("Dagger", x)))
         res = None
         try:
             for st in frag:
@@ -312,15 +324,24 @@ def unit_bd_tail(second_quantized, timeout_ms=20000):
             return
         for k, nm in enumerate(order):
             kw = made[k].kw
-            meta_ok = all(isinstance(kw.get(a), T) and kw[a].head == a + "-of" and kw[a].args[0] is outs[nm] for a in ("shape", "n_infinite", "dimension_names", "name"))
+            src = (outs[nm], outs["U"]) if (nm == "U†" and hermitian) else (outs[nm],)      # U and U† have the same shape / orders / dimension names
+            meta_ok = all(isinstance(kw.get(a), T) and kw[a].head == a + "-of" and any(kw[a].args[0] is o_ for o_ in (src if a != "name" else src[:1])) for a in ("shape", "n_infinite", "dimension_names", "name"))
             eng.oblige(f"second-quantized:wrapper-{k}-has-the-shape-orders-names-of-{nm}", z3.BoolVal(meta_ok), detail=repr({a: kw.get(a) for a in ("shape", "name")})[:200])
             for o in outs.values():
                 o.reads.clear()
             idx = [SI(eng.fresh("i")), SI(eng.fresh("j")), SI(eng.fresh("n"))]
             eng.call(kw["eval"], idx, {})
             only = all((not o.reads) for q, o in outs.items() if q != nm) and len(outs[nm].reads) == 1
-            eng.oblige(f"second-quantized:wrapper-{k}-reads-only-{nm}-once-at-the-requested-index", z3.BoolVal(only and all(x is y for x, y in zip(eng.as_seq(outs[nm].reads[0]).items, idx)) if only else False))
-    return run_unit(f"block_diagonalization:block_diagonalize[tail;{'second-quantized' if second_quantized else 'matrix-valued'}]", harness, functions=[(MODULE, "block_diagonalize")], timeout_ms=timeout_ms)
+            good = bool(only and all(x is y for x, y in zip(eng.as_seq(outs[nm].reads[0]).items, idx)))
+            if not good and nm == "U†" and hermitian:
+                # also accepted (the property holds): in Hermitian mode U†[i, j, n] may be derived from U at the block-TRANSPOSED index (j, i, n)
+                alt = all((not o.reads) for q, o in outs.items() if q != "U") and len(outs["U"].reads) == 1
+                if alt:
+                    r_ = eng.as_seq(outs["U"].reads[0]).items
+                    good = len(r_) == 3 and r_[0] is idx[1] and r_[1] is idx[0] and r_[2] is idx[2]
+            eng.oblige(f"second-quantized:wrapper-{k}-reads-only-{nm}-once-at-the-requested-index", z3.BoolVal(good),
+                       detail="(Hermitian mode: U† may instead be read off U at the block-transposed index)" if nm == "U†" else "")
+    return run_unit(f"block_diagonalization:block_diagonalize[tail;{'second-quantized' if second_quantized else 'matrix-valued'};hermitian={hermitian}]", harness, functions=[(MODULE, "block_diagonalize")], timeout_ms=timeout_ms)
 
 
 def unit_bd_middle(kind="numeric", solver="none", implicit=False, legacy=False, hermitian=True, fully_last=False, timeout_ms=20000):
